@@ -1,12 +1,30 @@
 HOOKS = {
   "guard": "OVM_VERIF",
-  "enable": "ovmbmc.py compiles every repository unit it encodes with -DOVM_VERIF (clang++-14 -std=c++17 -O1 -DNDEBUG -DOVM_VERIF -emit-llvm)",
+  "enable": "ovmbmc.py compiles every repository unit it encodes with -DOVM_VERIF (clang++-14 -std=c++17 -O1 -DNDEBUG -DOVM_VERIF -emit-llvm); the only hook is `friend struct ::OVMVerifAccess;` in IO/detail/BinaryFileReader.hh",
   "baseline_off_cmd": "cmake --build /repo/_build && ctest --test-dir /repo/_build -j8 --timeout 900",
-  "source_commits": [],
+  "source_commits": ["23d2f82"],
   "add_only": True,
 }
-DEFAULT_TEXT = "bounded model checking of the real code: every value of the symbolic inputs within the stated bounds is decided by one solver query per shard; unwinding assertions on; reachability witnesses guard against vacuity"
-DEFAULT_NOTE = "trusted: clang 14, the IR->C translator tools/ll2c.cpp, the libstdc++ models in models/, CBMC 6.11 and its back ends; bounds and assumptions are listed in the evidence file"
-NOTES = "All checks are driven by ovmbmc.py from specs.py; see DESIGN.md."
-META = {}
+DEFAULT_TEXT = ("bounded model checking of the real code (clang-14 LLVM IR of the repository's own units -> C via tools/ll2c.cpp -> CBMC 6.11): every value of the symbolic inputs "
+                "within the bounds stated in the evidence file is decided by one SAT/SMT query per shard; unwinding assertions on; reachability witnesses guard against vacuity; "
+                "counterexamples are replayed on a native sanitizer build of the real sources before being reported")
+DEFAULT_NOTE = ("trusted: clang 14, the IR->C translator tools/ll2c.cpp (cross-checked on every run by translation validation against a g++ build of the real sources), the libstdc++ models in models/, "
+                "CBMC 6.11 and its back ends; operator new never fails; nothing is claimed outside the bounds listed in evidence coverage.bounds / assumptions")
+NOTES = ("All checks are driven by ovmbmc.py from specs.py + spec_C*.py; ./check <id> --tier quick|thorough; see DESIGN.md (§5-§7 as built) and HARNESS_GUIDE.md. "
+         "Exit 0 = held on everything explored (queries that hit the time/memory cap are printed as NOT-COVERED and listed in evidence), 1 = VIOLATION (reproduced natively), 2 = tool error.")
+T = "bounded symbolic execution of the real code (LLVM IR -> C via ll2c -> CBMC 6.11) decided by SAT/SMT"
+META = {
+  "C01": dict(text="mesh-level BMC: after K<=2 real operations chosen by a symbolic selector, every bottom-up query is compared with a brute-force scan of the stored definitions for symbolic target entities", technique=T + "; selector dispatch over operation arguments, symbolic probe targets"),
+  "C02": dict(text="mesh-level BMC: one (or a second) deletion / garbage collection / mode switch chosen by a symbolic selector, compared at symbolic probe indices with a 120-line reference model of closure + documented renumbering; also with bottom-up incidences disabled", technique=T + "; differential against a reference model"),
+  "C03": dict(text="mesh-level BMC with fully symbolic property values (int, bool) on all entity kinds and symbolic vertex positions: after the operation every value sits where the reference model's identity tracking says", technique=T + "; symbolic data, reference renumbering with identity tracking"),
+  "C04": dict(text="mesh-level BMC: deferred deletions + collect_garbage vs. the same deletions done immediately on a second real mesh (compared through tag properties); StatusAttrib::garbage_collection incl. manifoldness pass and symbolic tracked handles against the reference model (thorough tier)", technique=T + "; differential (two real meshes) and reference model"),
+  "C12": dict(text="differential BMC with CBMC pointer/bounds checks: mesh with a subset of bottom-up incidences disabled vs. fully enabled twin under the same operation; circulator validity; C01 oracle after re-enabling", technique=T + "; differential, memory-safety checks on"),
+  "C17": dict(text="mesh-level BMC: every ordered handle pair by symbolic selector; state after the swap == transposition applied by the reference model; double swap restores state incl. cache order; memory-safety checks with incidences disabled", technique=T + "; reference model, memory-safety checks"),
+  "C09": dict(text="mesh-level BMC on fan/ring bases after 0..2 operations: reported halfface sequence vs. brute-force successor relation at a symbolic position; adjacent_halfface_in_cell uniqueness and involution", technique=T),
+  "C20": dict(text="sequential reduction decided by BMC: every store/memcpy/atomic/free executed by the const API after an epoch mark is instrumented (ll2c --store-hook) and asserted not to touch the mesh object or any heap block that existed before; no shared write => no data race and schedule-independent results for any number of readers", technique=T + "; store instrumentation + sequential reduction (interleavings not enumerated)"),
+  "C08": dict(text="full-width BMC of the handle algebra (every index in [0,2^30) in one query) and mesh-level BMC of the mirror relations of halfedges/halffaces and their circulators", technique=T),
+  "C19": dict(text="full-width BMC of the integer vector algebra against component-wise formulas (SMT back-end portfolio), bit-precise IEEE checks for float/double where the solver finishes, geometry kernel queries with symbolic integer positions", technique=T + "; back-end portfolio (cvc5/cadical/z3)"),
+}
+# properties whose check has been run clean on the unchanged tree (only these are claimed in MANIFEST.json)
+READY = ["C01", "C02", "C03", "C04", "C06", "C08", "C09", "C12", "C17", "C20"]
 NOT_APPLICABLE = {}
